@@ -115,32 +115,34 @@ class Repeat(Expression):
         gen.writeln("# <Repeat>")
 
         tmp_pairs = gen.new_temp("children")
-        trivia_pos = gen.new_temp("trivia_pos")
+        first = gen.new_temp("first")
 
-        gen.writeln(f"{trivia_pos} = state.pos")
+        gen.writeln(f"{first} = True")
         gen.writeln(f"{tmp_pairs}: list[Pair] = []")
 
         gen.writeln("while True:")
         with gen.block():
+            # The checkpoint covers the trivia skipped before the item too, so
+            # that a failed iteration gives back everything that trivia did,
+            # not just its position.
             gen.writeln("state.checkpoint()")
+            gen.writeln(f"if not {first}:")
+            with gen.block():
+                gen.writeln(f"parse_trivia(state, {tmp_pairs})")
             # Parse one item
             self.expression.generate(gen, matched_var, tmp_pairs)
 
             gen.writeln(f"if {matched_var}:")
             with gen.block():
                 gen.writeln("state.ok()")
-                # Commit the item immediately
+                # Commit the item (and the trivia before it) immediately
                 gen.writeln(f"{pairs_var}.extend({tmp_pairs})")
                 gen.writeln(f"{tmp_pairs}.clear()")
-                # Save pos before trivia
-                gen.writeln(f"{trivia_pos} = state.pos")
-                # Parse trivia after item
-                gen.writeln(f"parse_trivia(state, {tmp_pairs})")
+                gen.writeln(f"{first} = False")
             gen.writeln("else:")
             with gen.block():
-                # Restore checkpoint and also rewind trivia pos
                 gen.writeln("state.restore()")
-                gen.writeln(f"state.pos = {trivia_pos}")
+                gen.writeln(f"{tmp_pairs}.clear()")
                 # Always succeed
                 gen.writeln(f"{matched_var} = True")
                 gen.writeln("break")
@@ -204,16 +206,22 @@ class RepeatOnce(Expression):
         acc_pairs = gen.new_temp("children")
         tmp_pairs = gen.new_temp("item_children")
         count_var = gen.new_temp("count")
-        trivia_pos = gen.new_temp("trivia_pos")
 
-        gen.writeln(f"{trivia_pos} = state.pos")
         gen.writeln(f"{acc_pairs}: list[Pair] = []")
         gen.writeln(f"{tmp_pairs}: list[Pair] = []")
         gen.writeln(f"{count_var} = 0")
 
         gen.writeln("while True:")
         with gen.block():
+            # The checkpoint covers the trivia skipped before the item too, so
+            # that a failed iteration gives back everything that trivia did,
+            # not just its position.
             gen.writeln("state.checkpoint()")
+            gen.writeln(f"if {count_var}:")
+            with gen.block():
+                # Non-silent trivia is added to acc_pairs together with the
+                # item it precedes.
+                gen.writeln(f"parse_trivia(state, {tmp_pairs})")
             # Parse one item
             self.expression.generate(gen, matched_var, tmp_pairs)
 
@@ -222,23 +230,14 @@ class RepeatOnce(Expression):
                 gen.writeln(f"{count_var} += 1")
                 gen.writeln("state.ok()")
 
-                # Commit the item immediately
+                # Commit the item (and the trivia before it) immediately
                 gen.writeln(f"{acc_pairs}.extend({tmp_pairs})")
                 gen.writeln(f"{tmp_pairs}.clear()")
 
-                # Save pos before trivia
-                gen.writeln(f"{trivia_pos} = state.pos")
-
-                # Parse trivia after item.
-                # Non-silent trivia will be added to acc_pairs on the next
-                # iteration if it succeeds.
-                gen.writeln(f"parse_trivia(state, {tmp_pairs})")
-
             gen.writeln("else:")
             with gen.block():
-                # Restore checkpoint and also rewind trivia pos
                 gen.writeln("state.restore()")
-                gen.writeln(f"state.pos = {trivia_pos}")
+                gen.writeln(f"{tmp_pairs}.clear()")
                 gen.writeln("break")
 
         # After the loop, validate minimum
